@@ -25,7 +25,7 @@ package main
 // parent as CRASH; a transition that never returns is reported as HANG (bounded
 // progress, see reportHang) and ends the batch.
 //
-// Further case classes: late-report cases (a hook task reports exit 0 after the
+// Further case classes: stale-result cases (genStale), late-report cases (a hook task reports exit 0 after the
 // environment has accounted it as timed out, a gated sibling of the same trigger
 // command still pending: the outcome must be the timeout outcome) and sibling
 // cases (one failing critical call, healthy gated calls awaited at the same
@@ -41,6 +41,7 @@ import (
 	"runtime"
 	"sort"
 	"strings"
+	"time"
 
 	"verif/harness/envlab"
 	"verif/harness/vlib"
@@ -67,16 +68,89 @@ var prefixes = map[string][][]string{
 var targetEvents = []string{"CONFIGURE", "START_ACTIVITY", "STOP_ACTIVITY", "RESET", "DEPLOY"}
 
 // c09Sizes: indices [0,singles) enumerate single failures, then multi-failure sets;
-// the last `late` cases are late-report cases, the `sib` cases before them are
-// sibling cases (one failing critical call, gated healthy calls at the same await point).
-func c09Sizes(tier string) (singles, total, late, sib int) {
+// the last `late` cases are late-report cases, before them `sib` sibling cases (one
+// failing critical call, gated healthy calls at the same await point), before
+// them `stale` cases (a call result that waits for its await point longer than the
+// hook's timeout).
+func c09Sizes(tier string) (singles, total, late, sib, stale int) {
 	if tier == "thorough" {
-		return 2400, 10000, 300, 600
+		return 2400, 10000, 300, 600, 600
 	}
-	return 96, 336, 16, 24
+	return 96, 360, 16, 24, 24
 }
 
-func genC09(c *vlib.Ctx, idx int64, singles, total, late, sib int) HookCase {
+// staleTimeout is the (short) timeout trait of the call of a stale case; its
+// result then waits stalePause for the await point.
+const (
+	staleTimeout = 150 * time.Millisecond
+	stalePause   = 400 * time.Millisecond
+)
+
+// genStale: a call hook with await != trigger and a short timeout, whose await
+// point is reached stalePause after the call returned: either the call is
+// triggered in the transition before the target and the lab pauses between the
+// two (await at any of the four moments of the target), or it is triggered at
+// before_<event> of the target and the task transition takes that long (await at
+// enter_/after_). The call fails (__call_error), succeeds, or itself takes longer
+// than its timeout and reports that; critical or not. How long a result waits
+// must not matter: judged by the ordinary outcome table at the await point.
+func genStale(r *rand.Rand, hc HookCase, v int) HookCase {
+	hc.Stale = true
+	m := failMoments[v%4]
+	critical := (v/4)%2 == 0
+	beh := []envlab.Behaviour{envlab.CallError, envlab.OK, envlab.CallTimeout}[(v/8)%3]
+	evs := []string{"CONFIGURE", "START_ACTIVITY", "STOP_ACTIVITY", "RESET"}
+	ev := evs[r.Intn(len(evs))]
+	ps := prefixes[ev]
+	prefix := ps[r.Intn(len(ps))]
+	hc.Walk = append(append([]string{}, prefix...), ev)
+	hc.Target = len(prefix)
+	occs := occurrencesOf(hc.Walk)
+	tocc, pocc := occs[hc.Target], occs[hc.Target-1]
+	hc.FailPoint = envlab.Expr(tocc.Moments()[m], pickWeight(r))
+	h := envlab.HookSpec{Name: "st", Kind: envlab.Call, Await: hc.FailPoint, Timeout: staleTimeout.String(), Behaviour: beh}
+	var tname string
+	if (m == envlab.MEnter || m == envlab.MAfter) && r.Intn(3) == 0 {
+		tname = tocc.Moments()[envlab.MBefore]
+		hc.BodySleepMs = int(stalePause / time.Millisecond)
+	} else {
+		tname = pocc.Moments()[[]int{envlab.MBefore, envlab.MLeave, envlab.MEnter, envlab.MAfter}[r.Intn(4)]]
+		hc.PauseMs = int(stalePause / time.Millisecond)
+	}
+	h.Trigger = envlab.Expr(tname, pickWeight(r))
+	// the script applies to the invocation whose result the target awaits
+	inv := 0
+	for _, o := range occs[:hc.Target+1] {
+		if o.MomentIndex(tname) >= 0 {
+			inv++
+		}
+	}
+	h.OnlyInv = inv
+	if critical {
+		if r.Intn(2) == 0 {
+			t := true
+			h.Critical = &t
+		}
+	} else {
+		f := false
+		h.Critical = &f
+	}
+	hc.Hooks = []envlab.HookSpec{h}
+	if beh != envlab.OK {
+		hc.Failing = []string{h.Name}
+	}
+	cont := append([]string{}, hc.Walk...)
+	if nb := r.Intn(4); nb > 0 {
+		hc.Hooks = append(hc.Hooks, genHooks(r, cont, nb, "b", r.Intn(2) == 0)...)
+	}
+	if r.Intn(3) == 0 {
+		hc.Hooks = append(hc.Hooks, sentinels(cont)...)
+	}
+	r.Shuffle(len(hc.Hooks), func(i, j int) { hc.Hooks[i], hc.Hooks[j] = hc.Hooks[j], hc.Hooks[i] })
+	return hc
+}
+
+func genC09(c *vlib.Ctx, idx int64, singles, total, late, sib, stale int) HookCase {
 	r := c.SubRand(idx)
 	hc := HookCase{Prop: "C09", Idx: idx, FollowUp: true}
 	hc.GoMaxProcs = 1
@@ -88,6 +162,9 @@ func genC09(c *vlib.Ctx, idx int64, singles, total, late, sib int) HookCase {
 	var m int
 	isLate := int(idx) >= total-late
 	isSib := !isLate && int(idx) >= total-late-sib
+	if !isLate && !isSib && int(idx) >= total-late-sib-stale {
+		return genStale(r, hc, int(idx)-(total-late-sib-stale))
+	}
 	if isLate {
 		// a hook task that reports (exit 0) after the environment has accounted it as timed
 		// out, while a gated sibling of the same trigger command is still running: the
@@ -267,7 +344,7 @@ func runC09() {
 		dumpOutcome(out, checkC09(out, lab))
 		return
 	}
-	singles, total, late, sib := c09Sizes(c.Tier)
+	singles, total, late, sib, stale := c09Sizes(c.Tier)
 	// interleave: batch b takes indices b, b+nbatch, ... so that every batch has singles and multis
 	nb := c.NBatch
 	if nb < 1 {
@@ -275,7 +352,7 @@ func runC09() {
 	}
 	first := true
 	for i := c.Batch; i < total; i += nb {
-		hc := genC09(c, int64(i), singles, total, late, sib)
+		hc := genC09(c, int64(i), singles, total, late, sib, stale)
 		id := c.Case(hc)
 		out, lab, err := execC09(w, hc)
 		if err != nil {
@@ -321,8 +398,20 @@ func execC09(w *envlab.World, hc HookCase) (*caseOutcome, *envlab.Lab, error) {
 		out.LateUnconfirmed = lab.LateUnconfirmed()
 		return out, lab, nil
 	}
-	for _, ev := range hc.Walk {
-		res := lab.Transition(ev, nil)
+	for i, ev := range hc.Walk {
+		var body envlab.BodyFunc
+		if i == hc.Target {
+			// stale cases: let the result of the already finished call wait (a sleep of the
+			// lab, not a deciding clock: the expected outcome does not depend on it)
+			if hc.PauseMs > 0 {
+				time.Sleep(time.Duration(hc.PauseMs) * time.Millisecond)
+			}
+			if hc.BodySleepMs > 0 {
+				d := time.Duration(hc.BodySleepMs) * time.Millisecond
+				body = func() error { time.Sleep(d); return nil }
+			}
+		}
+		res := lab.Transition(ev, body)
 		if res.Hang != "" {
 			out.Hang, out.HangEvent = res.Hang, ev
 			return finish()
@@ -407,6 +496,12 @@ func countC09(c *vlib.Ctx, out *caseOutcome) {
 	if hc.Sibling {
 		c.Count("sibling_cases", 1)
 	}
+	if hc.Stale {
+		c.Count("stale_result_cases", 1)
+		if len(hc.Failing) > 0 {
+			c.Count("stale_result_cases_failing", 1)
+		}
+	}
 	if len(hc.Failing) > 1 {
 		c.Count("multi_failure_sets", 1)
 		if calls > 1 {
@@ -461,7 +556,12 @@ func failuresOf(hc HookCase, k int, lab *envlab.Lab) []failure {
 		}
 	}
 	for _, h := range hc.Hooks {
-		if !sameExpr(h.Trigger, hc.FailPoint) {
+		// a call's failure is detected where it is awaited, a hook task's where it is triggered
+		at := h.Trigger
+		if h.Kind == envlab.Call {
+			at = h.AwaitExpr()
+		}
+		if !sameExpr(at, hc.FailPoint) {
 			continue
 		}
 		if h.Kind == envlab.Task && trigErr != "" {
